@@ -47,6 +47,7 @@ class Real:
         self.yatiml = yatiml
         self.JS = JsonDumperState
         self.dumps_json = yatiml.dumps_json_function()
+        self.dump_json = yatiml.dump_json_function()
         self.cls = self.dumps_json.dumper
 
     def instance(self, indent, ensure_ascii):
@@ -282,6 +283,30 @@ def check_value(ctx, real, value, indents, loader=None, dumps=None, label='plain
     answers = iter(ctx.driver(live)) if live else iter([])
     proj = projection(value)
     nontrivial = isinstance(value, (dict, list)) or label != 'plain'
+    if ctx.rng.random() < 0.25 and label == 'plain':
+        # dump_json to an open text stream writes exactly what dumps_json returns (also C12)
+        indent, ea, text = ctx.rng.choice(outs)
+        sink = io.StringIO()
+        try:
+            real.dump_json(value, sink, indent=indent, ensure_ascii=ea)
+            got = sink.getvalue()
+        except Exception as e:  # noqa
+            got = 'raised {}: {}'.format(type(e).__name__, e)
+        ctx.count('dump_json_stream')
+        if got != text:
+            ctx.violation('dump_json to a stream writes something else than dumps_json returns',
+                          dict(key='dumpjson-stream:{}:{}'.format(indent, ea), value=repr(value)[:300],
+                               indent=indent, ensure_ascii=ea, dumps=text[:300], dump=got[:300]))
+    if ctx.rng.random() < 0.05:
+        # an aborted dump (a value that is not tree-shaped) must not disturb later ones
+        shared = [1, 2]
+        try:
+            dumps({'a': shared, 'b': shared})
+            ctx.count('alias_dump_did_not_raise')
+        except RuntimeError:
+            ctx.count('aborted_dumps')
+        except Exception as e:  # noqa
+            ctx.count('aborted_dumps_other:' + type(e).__name__)
     for (indent, ea, text), req in zip(outs, reqs):
         ctx.case((label, repr(value)[:200], indent, ea), nontrivial)
         ctx.count('trees')
@@ -388,15 +413,19 @@ def fixed_classes(ctx, real):
         red = 1
         green = 2
 
+    class Unit(str, enum.Enum):
+        metre = 'm'
+        second = 's'
+
     class Name(UserString):
         pass
 
     class Inner:
-        def __init__(self, n: int, c: Color, f: float) -> None:
-            self.n, self.c, self.f = n, c, f
+        def __init__(self, n: int, c: Color, f: float, u: Unit = Unit.metre) -> None:
+            self.n, self.c, self.f, self.u = n, c, f, u
 
         def __eq__(self, o):
-            return type(o) is Inner and (self.n, self.c, self.f) == (o.n, o.c, o.f)
+            return type(o) is Inner and (self.n, self.c, self.f, self.u) == (o.n, o.c, o.f, o.u)
 
     class Dated:
         def __init__(self, n: int, when: datetime.date) -> None:
@@ -417,11 +446,12 @@ def fixed_classes(ctx, real):
         def __eq__(self, o):
             return type(o) is Outer and vars(self) == vars(o)
 
-    dumps = yatiml.dumps_json_function(Outer, Inner, Dated, Color, Name)
-    load = yatiml.load_function(Outer, Inner, Dated, Color, Name)
+    dumps = yatiml.dumps_json_function(Outer, Inner, Dated, Color, Unit, Name)
+    load = yatiml.load_function(Outer, Inner, Dated, Color, Unit, Name)
     rng = ctx.rng
     for i in range(ctx.budget(40, 600)):
-        items = [Inner(rng.randint(-5, 5), rng.choice(list(Color)), rng.choice([1.5, -0.25, 3.0, 1e-3]))
+        items = [Inner(rng.randint(-5, 5), rng.choice(list(Color)), rng.choice([1.5, -0.25, 3.0, 1e-3]),
+                       rng.choice(list(Unit)))
                  for _ in range(rng.randint(0, 3))]
         m = None if rng.random() < 0.5 else {rng.choice(['a', 'b', 'é']): rng.choice([1.5, -2.25, 0.1])
                                                for _ in range(rng.randint(0, 2))}
@@ -440,10 +470,18 @@ def fixed_classes(ctx, real):
                 text = dumps(v, indent=indent, ensure_ascii=ea)
                 ctx.case(('class', i, indent, ea))
                 try:
-                    strict_loads(text)
+                    parsed = strict_loads(text)
                 except Exception as e:  # noqa
                     ctx.violation('class value: output is not strict JSON: {}'.format(e),
                                   dict(key='classjson', text=text[:300]))
+                    continue
+                want_items = [OrderedDict([('n', it.n), ('c', it.c.name), ('f', it.f), ('u', it.u.name)])
+                              for it in items]
+                if parsed.get('items') != want_items or parsed.get('name') != str(v.name) \
+                        or parsed.get('p') != str(v.p):
+                    ctx.violation('class value: JSON content differs from the projection (enum members '
+                                  'by name, string-likes and paths by str())',
+                                  dict(key='classproj', text=text[:400]))
                     continue
                 if ea and not text.isascii():
                     ctx.violation('ensure_ascii output is not ASCII', dict(key='classascii', text=text[:300]))
